@@ -15,7 +15,7 @@ from __future__ import annotations
 
 import ast
 
-from ..model import Program, call_name, norm, walk_no_nested
+from ..model import Program, call_name, is_self_attr, norm, walk_no_nested
 from ..poly import Rat, eval_expr
 from ..report import AnalysisError
 
@@ -74,6 +74,54 @@ def rule_r1(rep, program: Program):
         loops = [n for n in ast.walk(sc.node) if isinstance(n, ast.For) and any(x is uses[0] for x in ast.walk(n))]
         if loops:
             r.violate(PROP, "sample_chains:per_chain_rngs-in-loop", "per-chain generators are re-derived inside a loop: the same streams are replayed", node=uses[0], file=sc.file)
+    # chain-count independence of the base generator: `jumped(i)` is relative to the base
+    # generator's *current* state, so nothing may draw from it a chain-count dependent number of
+    # times before the derivation (the derivation itself is the last statement group of R1 above)
+    base = program.cls("MarkovChainMonteCarloMethod")
+    samplers = [k for k in program.classes.values() if base in k.mro]
+    n_uses = 0
+    for k in samplers:
+        for mname, m in k.methods.items():
+            if mname in ("__init__", "rng") or m.is_setter:
+                continue
+            for n in ast.walk(m.node):
+                if not isinstance(n, ast.Call):
+                    continue
+                args = list(n.args) + [kw.value for kw in n.keywords]
+                direct = isinstance(n.func, ast.Attribute) and norm(n.func.value) == "self.rng"
+                if not direct and not any(norm(a) == "self.rng" for a in args):
+                    continue
+                if norm(n.func) == "_get_per_chain_rngs":
+                    continue
+                n_uses += 1
+                # is this method invoked once per chain from a sample_chains method?
+                per_chain_sites = []
+                for k2 in samplers:
+                    sc2 = k2.methods.get("sample_chains")
+                    if sc2 is None:
+                        continue
+                    for c in ast.walk(sc2.node):
+                        if isinstance(c, (ast.ListComp, ast.GeneratorExp, ast.For)):
+                            body = [c.elt] if not isinstance(c, ast.For) else c.body
+                            it = c.generators[0].iter if not isinstance(c, ast.For) else c.iter
+                            if "init_states" not in norm(it) and "n_chain" not in norm(it):
+                                continue
+                            for b in body:
+                                for x in ast.walk(b):
+                                    if isinstance(x, ast.Call) and norm(x.func) == f"self.{mname}":
+                                        per_chain_sites.append((sc2, x))
+                    if mname == "sample_chains" and m is sc2:
+                        # the draw itself sits in sample_chains: per chain iff inside a chain loop
+                        for c in ast.walk(sc2.node):
+                            if isinstance(c, (ast.ListComp, ast.GeneratorExp, ast.For)) and any(x is n for x in ast.walk(c)):
+                                it = c.generators[0].iter if not isinstance(c, ast.For) else c.iter
+                                if "init_states" in norm(it) or "n_chain" in norm(it):
+                                    per_chain_sites.append((sc2, n))
+                r.inst({"base generator use": f"{m.qualname}: {norm(n)[:60]}", "once per chain": bool(per_chain_sites)})
+                if per_chain_sites:
+                    sc2, site = per_chain_sites[0]
+                    r.violate(PROP, f"{m.qualname}:base-rng-draw-per-chain", f"{m.qualname} draws from the sampler's base generator (`{norm(n)[:60]}`) and is invoked once per chain in {sc2.qualname} (`{norm(site)[:50]}`) before the per-chain streams are derived from that generator's current state (`jumped(i)` is state-relative): every chain's stream - and so its whole output - depends on how many chains are run", node=n, file=m.file)
+    r.inst({"base generator uses outside the derivation": n_uses})
     return r
 
 
@@ -293,6 +341,84 @@ class _OrderFlow:
                 self.saw_source = True
 
 
+def rule_r5(rep, program: Program):
+    r = rep.rule("R5", "chain start-up resets every transition parameter the adapter updates per iteration before using it: a value left in the shared integrator / system by another chain of the same process never reaches a chain's adaptation", floor=3)
+    from ..cfg import CFG, node_expr
+    from ..facts import must_facts
+
+    for k in program.subclasses("Adapter", concrete_only=True):
+        upd = k.resolve("update")
+        if upd is None:
+            raise AnalysisError(f"{k.name}.update not found")
+        written = set()
+        for n in ast.walk(upd.node):
+            tgts = n.targets if isinstance(n, ast.Assign) else [n.target] if isinstance(n, (ast.AugAssign, ast.AnnAssign)) else []
+            for t in tgts:
+                if isinstance(t, ast.Attribute) and not is_self_attr(t) and not (isinstance(t.value, ast.Name) and t.value.id == "adapt_state"):
+                    written.add(t.attr)
+        r.inst({"adapter": k.name, "parameters written by update": sorted(written)})
+        if not written:
+            continue
+        init = k.resolve("initialize")
+        fns = [init]
+        for c in ast.walk(init.node):
+            if isinstance(c, ast.Call) and isinstance(c.func, ast.Attribute) and isinstance(c.func.value, ast.Name) and c.func.value.id == "self":
+                h = k.resolve(c.func.attr)
+                if h is not None and h not in fns:
+                    fns.append(h)
+        n_cons = 0
+        for fn in fns:
+            cfg = CFG(fn.node)
+
+            def independent(e):
+                for x in ast.walk(e):
+                    if isinstance(x, ast.Attribute) and x.attr in written and not is_self_attr(x):
+                        return False
+                    if isinstance(x, ast.Call):
+                        return False
+                return True
+
+            def gen(n, cur):
+                st = n.ast
+                out = set()
+                if isinstance(st, ast.Assign):
+                    for t in st.targets:
+                        if isinstance(t, ast.Attribute) and t.attr in written and not is_self_attr(t) and independent(st.value):
+                            out.add(("reset", t.attr))
+                return out
+
+            IN = must_facts(cfg, lambda e, pol: (), gen, None)
+            for n in cfg.stmts():
+                if n not in IN or IN[n] is None:
+                    continue
+                e = n.ast if isinstance(n.ast, ast.AST) else None
+                if e is None:
+                    continue
+                # only the expression evaluated at this node, not nested statement bodies
+                exprs = [node_expr(n)] if node_expr(n) is not None else []
+                if isinstance(n.ast, ast.AugAssign):
+                    exprs.append(n.ast.target)
+                for ex in exprs:
+                    for x in ast.walk(ex):
+                        attr = None
+                        if isinstance(x, ast.Attribute) and x.attr in written and not is_self_attr(x) and (isinstance(x.ctx, ast.Load) or isinstance(n.ast, ast.AugAssign)):
+                            attr = x.attr
+                            how = f"reads `{norm(x)}`"
+                        elif isinstance(x, ast.Call) and isinstance(x.func, ast.Attribute) and x.func.attr == "step" and "integrator" in norm(x.func.value) and "step_size" in written:
+                            attr = "step_size"
+                            how = f"`{norm(x)[:40]}` integrates with the current step size"
+                        if attr is None:
+                            continue
+                        n_cons += 1
+                        ok = ("reset", attr) in IN[n]
+                        r.inst({"adapter": k.name, "function": fn.qualname, "use": norm(x)[:50], "reset before": ok})
+                        if not ok:
+                            r.violate(PROP, f"{fn.qualname}:uses-shared-{attr}:{norm(x)[:40]}", f"{fn.qualname} {how} on a path where it has not been reset to a chain-independent value: chains run in one process share the integrator object and {k.name}.update writes `{attr}` every iteration, so a chain's start-up depends on which chain ran before it in the same worker (n_process / scheduling dependent output)", node=x, file=fn.file)
+        if n_cons == 0:
+            raise AnalysisError(f"{k.name}.initialize: no use of the adapted parameters {sorted(written)} found (anchor vanished)")
+    return r
+
+
 def _key_is_index(key) -> bool:
     if isinstance(key, ast.Lambda) and isinstance(key.body, ast.Subscript) and isinstance(key.body.slice, ast.Constant) and key.body.slice.value == 0:
         return True
@@ -380,3 +506,4 @@ def run(rep, program: Program, tier: str) -> None:
     rule_r2(rep, program)
     rule_r3(rep, program)
     rule_r4(rep, program)
+    rule_r5(rep, program)
